@@ -33,3 +33,10 @@ End Loop.
 (** Comparison operators applied to an [Ordering] (`a < b` on BigUint is `cmp(a,b) == Less`). *)
 Definition cmpop_ord (op : cmpop) (c : comparison) : bool :=
   cmp_eval op (match c with Lt => -1 | Eq => 0 | Gt => 1 end) 0.
+
+(** Spec-level stand-ins for the big operations the pow / gcd / roots models are parameterised
+    by (exactly the right-hand sides of Mul.umul_spec / Div.udivrem_spec).  Used by the driver
+    and the in-Coq cross-check until the real Mul.umul / Div.udivrem are plugged in. *)
+Definition spec_bmul (a b : list Z) : outcome (list Z) := Ret (enc (val a * val b)).
+Definition spec_bdivrem (a b : list Z) : outcome (list Z * list Z) :=
+  if val b =? 0 then Panic DivZero else Ret (enc (val a / val b), enc (val a mod val b)).
